@@ -3078,6 +3078,7 @@ static void PrintDebSymbols_PNode(PTree Tree, void* pData) {
         return;
     }
 
+    errno = 0;
     if (!DebContext->HWritten) {
         fprintf(DebContext->f, "\n");
         ChkIO(ErrNum_FileWriteError);
